@@ -200,7 +200,7 @@ func bboxStoredAsGivenRule(p *core.Program, r *core.Report, rule string) {
 
 // collectionBoundsThroughExtendRule (C08): the box of a collection is folded by Extend and by nothing else.
 func collectionBoundsThroughExtendRule(p *core.Program, r *core.Report, rule string) {
-	r.Rule(rule, "every function of package geom that stores into the min/max arrays of a Bounds and is reachable from (*GeometryCollection).Bounds is reachable only through (*Bounds).Extend: with Extend taken out of the call graph none of them is reachable. Extend is where a member's layout is reconciled with the box's (XYM into XYZM); a second fold that walks members with their own stride puts M ordinates into the Z slot", 1)
+	r.Rule(rule, "every function of package geom that stores into the min/max arrays of a Bounds and is reachable from (*GeometryCollection).Bounds is reachable only through (*Bounds).Extend: with Extend taken out of the call graph none of them is reachable, and (*GeometryCollection).Bounds stores into no box itself. Extend is where a member's layout is reconciled with the box's (XYM into XYZM); a second fold that walks members with their own stride puts M ordinates into the Z slot", 1)
 	gcb := mustFn(p, r, rule, "", "(*GeometryCollection).Bounds")
 	ext := mustFn(p, r, rule, "", "(*Bounds).Extend")
 	if gcb == nil || ext == nil {
@@ -240,7 +240,7 @@ func collectionBoundsThroughExtendRule(p *core.Program, r *core.Report, rule str
 			return
 		}
 		seen[f] = true
-		if f != gcb && writesBox(f) && f.Name() != "NewBounds" {
+		if writesBox(f) && f.Name() != "NewBounds" { // GeometryCollection.Bounds itself included: it may not fold by hand either
 			bad = append(bad, strings.Join(append(path, short(f)), " -> "))
 		}
 		for _, c := range eng.Calls(f) {
